@@ -308,6 +308,41 @@ func runC14(env *core.Env) {
 		samples.add(map[string]interface{}{"state": n.Key, "cmd": req.Shell(), "arg": op.ArgClass, "exit": res.Exit})
 	}
 	b.Run()
+	// a store with several hundred prunable items (180 one-task finished epics): after one and after two `prune --yes`
+	// no task may name an epic that is not live
+	bigCov := map[string]interface{}{}
+	{
+		l := newSynLog()
+		for i := 0; i < 180; i++ {
+			e, t := core.IDFor(int64(50000+2*i)), core.IDFor(int64(50001+2*i))
+			l.Create(SynItem{ID: e, Epic: true, Title: fmt.Sprintf("finished epic %d", i)})
+			l.Create(SynItem{ID: t, Title: fmt.Sprintf("finished task %d", i), In: e})
+			l.State(t, []string{"done", "canceled"}[i%2])
+		}
+		st := core.Store{".ergo/plans.jsonl": l.Bytes(), ".ergo/lock": nil}
+		st.Materialize(w0.Proj)
+		var steps []core.Req
+		dangling := 0
+		for round := 1; round <= 2 && dangling == 0; round++ {
+			w0.Run(core.R(w0.Proj, "--json", "prune", "--yes"))
+			steps = append(steps, core.R("", "--json", "prune", "--yes"))
+			obs := core.ObserveW(w0, w0.Proj)
+			live := map[string]bool{}
+			for _, e := range obs.Epics {
+				live[e.ID] = true
+			}
+			for _, t := range obs.All {
+				if t.EpicID != "" && !live[t.EpicID] {
+					dangling++
+				}
+			}
+			if dangling > 0 || obs.Fail != "" {
+				report(env, "C14 kind=dangling-epic-ref after=large-prune", fmt.Sprintf("180 one-task finished epics: after %d x `prune --yes` %d listed tasks name an epic that is not live (reads: %q)", round, dangling, obs.Fail),
+					mkTrace(st, "360 prunable items", steps, Assert{Kind: "exit_zero", Step: len(steps)}))
+			}
+		}
+		bigCov = map[string]interface{}{"finished_epics": 180, "tasks_with_dangling_epic": dangling}
+	}
 	validated := b.Conf.run(env)
 	cf := buildConcFix(env)
 	concCov := concPhase(env, "C14", []sched.Scenario{
@@ -316,7 +351,8 @@ func runC14(env *core.Env) {
 		{Name: "prune||plan", Store: cf.SA, Procs: []core.Req{core.R("", "--json", "prune", "--yes"), core.R("", "--json", "plan").In(`{"title":"P","tasks":[{"title":"pa"}]}`)}},
 	}, invC14)
 	env.Finish("model_checking", map[string]interface{}{
-		"states": b.States, "transitions": b.Transitions, "traces_validated_against_impl": validated, "concurrent": concCov,
+		"large_prune": bigCov,
+		"states":      b.States, "transitions": b.Transitions, "traces_validated_against_impl": validated, "concurrent": concCov,
 		"samples": samples.list, "exhaustive": b.Exhaustive, "cap_hit": b.CapHit, "bfs_depth": b.DepthDone,
 		"bound":                      fmt.Sprintf("<=%d tasks, <=%d epics live, <=3 tombstones; second root E1:{c1,c2} E2:{} with all six states per task, prune, compact, moves out of/into E1; BFS to fixpoint on the canonical graph", maxTasks, maxEpics),
 		"bad_epic_requests_rejected": rejBad, "bad_epic_requests_accepted": accBad, "valid_epic_requests_accepted": accGood, "valid_epic_requests_rejected": rejGood,
